@@ -293,6 +293,27 @@ func childC12(a []string) string {
 				break
 			}
 		}
+	case "flood-posts":
+		// one-way requests only: nothing is answered, nothing has to be read.  Posted subscriptions make the
+		// object register handlers on the connection while the connection's reader is busy dispatching the flood.
+		c, err := w.rawConn()
+		if err != nil {
+			return "setup-error:" + err.Error()
+		}
+		go c12Drain(c, 3*time.Second)
+		n := 3000 + r.Intn(3000)
+		for i := 0; i < n; i++ {
+			var err error
+			if i%3 == 0 {
+				err = c12Frame(c, qnet.Post, 2, 1, 100, uint32(100+i), svString("x"))
+			} else {
+				err = c12Frame(c, qnet.Post, 2, 1, 0, uint32(100+i), append(append(le32(1), le32(102)...), le64(uint64(5000+i))...))
+			}
+			if err != nil {
+				break
+			}
+		}
+		c.Close()
 	case "flood-not-reading":
 		// metaObject calls whose replies are never read
 		c, err := w.rawConn()
@@ -351,7 +372,7 @@ func runC12(r *Rand, tier string, o *Out) {
 	if tier == "thorough" {
 		per = 12
 	}
-	for _, sc := range []string{"valid", "subscriptions", "raw", "lengths", "flood-reading", "disconnects"} {
+	for _, sc := range []string{"valid", "subscriptions", "raw", "lengths", "flood-reading", "flood-posts", "disconnects"} {
 		for i := 0; i < per; i++ {
 			line := fmt.Sprintf("c12.run %s %d", sc, r.U64()>>1)
 			if out := o.Do("P", line, true); out != "ok" {
